@@ -1,6 +1,13 @@
 import Acra.Drv.FTI
 import Acra.Drv.Float
+import Acra.Drv.Search
 namespace Acra.Drv
-def allCodecs : List Codec := ftiCodecs
-def allFuncs : List Func := ftiFuncs ++ floatFuncs
+def allCodecs : List Codec := List.flatten [
+  ftiCodecs
+]
+def allFuncs : List Func := List.flatten [
+  ftiFuncs,
+  floatFuncs,
+  searchFuncs
+]
 end Acra.Drv
